@@ -39,15 +39,14 @@ def _col_code(col_el) -> int:
 
 
 def _items(el, tag, groups):
+    """the items of a vault in document order: direct children, or children of (nested) group elements"""
     for ch in el:
         if not isinstance(ch.tag, str):
             continue
         if ch.tag == tag:
             yield ch
         elif ch.tag in groups:
-            for g in ch:
-                if isinstance(g.tag, str) and g.tag == tag:
-                    yield g
+            yield from _items(ch, tag, groups)
 
 
 def runs_of(vault, mapname: str) -> list:
@@ -57,9 +56,9 @@ def runs_of(vault, mapname: str) -> list:
         return _cell_runs(el)
     if mapname == "_tmap":
         return [[_row_code(r), tl._rep(r, T + "number-rows-repeated", raw)]
-                for r in _items(el, T + "table-row", (T + "table-rows", T + "table-header-rows"))]
+                for r in _items(el, T + "table-row", (T + "table-rows", T + "table-header-rows", T + "table-row-group"))]
     return [[_col_code(c), tl._rep(c, T + "number-columns-repeated", raw)]
-            for c in _items(el, T + "table-column", (T + "table-columns", T + "table-header-columns"))]
+            for c in _items(el, T + "table-column", (T + "table-columns", T + "table-header-columns", T + "table-column-group"))]
 
 
 def item_code(item, mapname: str):
